@@ -631,7 +631,11 @@ func checkContract(c *WCase, res *WResult, strictAfterClose bool) *sim.Violation
 			switch cr.Op.K {
 			case "w":
 				if cr.Err != nil || cr.N != cr.Want {
-					return sim.Viol("write-error", c.Format, "call %d Write(%d bytes) returned n=%d err=%v", i, cr.Want, cr.N, cr.Err)
+					how := "Write"
+					if cr.Op.Via != "" {
+						how = "io.Copy from a plain reader [" + cr.Op.Via + fmt.Sprintf(", pieces of %d] ", cr.Op.C)
+					}
+					return sim.Viol("write-error", c.Format, "call %d %s(%d bytes) returned n=%d err=%v", i, how, cr.Want, cr.N, cr.Err)
 				}
 			case "f":
 				if cr.Err != nil {
